@@ -359,6 +359,40 @@ func probesFor(u *universe, r *rand.Rand, ndocs int, light bool) *Probes {
 		}
 	}
 	p.Vec = vecProbesFor(u, r, ndocs)
+	// random Next/Advance sequences with exclusion bitmaps and detail flags
+	pairs := [][2]string{}
+	for _, f := range sortedKeys(u.fields) {
+		for _, t := range sortedKeys(u.terms[f]) {
+			if f != "_id" || r.Intn(20) == 0 {
+				pairs = append(pairs, [2]string{f, t})
+			}
+		}
+	}
+	r.Shuffle(len(pairs), func(i, j int) { pairs[i], pairs[j] = pairs[j], pairs[i] })
+	if len(pairs) > 6 {
+		pairs = pairs[:6]
+	}
+	for _, ft := range pairs {
+		ip := IterProbe{F: ft[0], T: ft[1], Flags: [3]bool{r.Intn(2) == 0, r.Intn(2) == 0, r.Intn(2) == 0}}
+		switch r.Intn(4) {
+		case 0:
+			ip.Ex = nil
+		case 1:
+			ip.Ex = []int{}
+		default:
+			den := 2 + r.Intn(9)
+			for d := 0; d < ndocs; d++ {
+				if r.Intn(den) == 0 {
+					ip.Ex = append(ip.Ex, d)
+				}
+			}
+		}
+		steps := []int{-1, -1, 0, 0, 1, 2, 5, 17, 100, 700}
+		for k := 0; k < 14; k++ {
+			ip.Skips = append(ip.Skips, steps[r.Intn(len(steps))])
+		}
+		p.Iter = append(p.Iter, ip)
+	}
 	return p
 }
 
